@@ -13,7 +13,7 @@ ID = "C11"
 LEVEL = "exploration"
 RULE = ("random patterns over a Symbol model (Shelf -> Box/FancyBox -> Part/BigPart, scalar, reference, collection "
         "and list-of-str attributes - literal, match_any and match_all on the latter too): per attribute one of {literal, literal on a collection, nested match (same or "
-        "sub type), element pattern on a collection, match_any(list), match_all(list), match_any(Type)(...), select / "
+        "sub type, also constraining an attribute only the sub type has; on an Optional reference that may hold None), element pattern on a collection, match_any(list), match_all(list), match_any(Type)(...), select / "
         "select_any of inner parts}, 1-3 constrained attributes, nesting depth <=3, domains mixing all classes, "
         "distinct elements with equal attribute values and elements sharing one collection object.  Non-trivial = the "
         "expected answer is a non-empty proper subset of the domain elements of the root type; distinct = pattern "
